@@ -602,7 +602,7 @@ Lemma set_input_none_incl ps input ps' : set_input ps input None = Some ps' ->
 Proof.
   unfold set_input. destruct (split_dot input) as [nm [suffix|]]; intros H.
   - inv_bind H. eapply upd_port_incl; [exact H|]. intros [src|l] p' Hp; [discriminate|].
-    destruct (a <? length l); [|discriminate]. injection Hp as <-. simpl. apply remove_at_incl.
+    destruct (a <? N.of_nat (length l))%N; [|discriminate]. injection Hp as <-. simpl. apply remove_at_incl.
   - eapply upd_port_incl; [exact H|]. intros [src|l] p' Hp; injection Hp as <-; simpl;
       intros x [].
 Qed.
